@@ -62,6 +62,8 @@ let vec_step r (v : float vec) : float vec =
   | "dv" -> let x = num r in v_assign_from v (vdivs fops v x)
   | "z" -> let p = integer r in v_assign_from v (v_zero fops (n p))
   | "df" -> v_assign_from v (v_default fops)
+  | "nz" -> ok_or_raise (v_normalize fops v)
+  | "nd" -> v_assign_from v (ok_or_raise (v_normalized fops v))
   | o -> raise (Ctor ("MODELERR unknown_step_" ^ o))
 let rec steps f r a k = if k <= 0 then a else steps f r (f r a) (k - 1)
 (* `life` cases: the live objects of the session; an argument `@k` is object k itself (no history suffix) *)
@@ -77,7 +79,7 @@ let rd_vec r = match obj_ref r with
   | None -> let v = plain_vec r in if !hist then (let k = integer r in steps vec_step r v k) else v
 let marg r = match obj_ref r with Some k -> MObj (n k) | None -> MLit (plain_mat r)
 let varg r = match obj_ref r with Some k -> VObj (n k) | None -> VLit (plain_vec r)
-(* a step that changes object k: parsed into the model's own step type, run by the extracted life_m / life_v *)
+(* a step that changes object k: parsed into the model's own step type, run by the extracted life_run (fold of life_step = life_m / life_v on the addressed object) *)
 let mmut_of r k : float mmut =
   match word r with
   | "rs" -> let p = integer r in let q = integer r in MuResize (n p, n q)
@@ -108,6 +110,7 @@ let vmut_of r k : float vmut =
   | "ms" -> VuMulS (num r) | "sm" -> VuSMul (num r) | "dv" -> VuDivS (num r)
   | "z" -> VuZero (n (integer r))
   | "df" -> VuDefault
+  | "nz" -> VuNormalize | "nd" -> VuNormalized
   | o -> raise (Ctor ("MODELERR unknown_step_" ^ o))
 (* block given as  r c e_11 ... e_rc : Matrix(r,c,0.0) then assigned entry by entry *)
 let rd_block r =
@@ -143,6 +146,8 @@ let dispatch op r =
   | "v_op_mul" -> let u = rd_vec r in let v = rd_vec r in put_res put_f (v_op_mul fops u v)
   | "v_cross" -> vv vcross r
   | "v_norm" -> let u = rd_vec r in put_res put_f (vnorm fops u)
+  | "v_normalized" -> let u = rd_vec r in put_res put_vec (v_normalized fops u)
+  | "v_normalize" -> let u = rd_vec r in put_res put_vec (v_normalize fops u)
   | "v_add" -> vv vadd r
   | "v_sub" -> vv vsub r
   | "v_add_assign" -> vv vadd_assign r
@@ -200,6 +205,16 @@ let dispatch op r =
       put_res put_mat (mat_of_entries [u.vcomps] >>= fun rw -> mat_of_entries (List.map (fun x -> [x]) v.vcomps) >>= fun c -> m_product fops rw c);
       put_mat (outer fops u v);
       put_res put_mat (mat_of_entries (List.map (fun x -> [x]) u.vcomps) >>= fun c -> mat_of_entries [v.vcomps] >>= fun rw -> m_product fops c rw)
+  | "law_vecmat_tr" -> let v = rd_vec r in let a = rd_mat r in let w = rd_vec r in
+      put_res put_vec (v_mul_m fops v a);
+      put_res put_vec (transpose fops a >>= fun at -> m_product_v fops at v);
+      put_res put_vec (m_product_v fops a w);
+      put_res put_vec (transpose fops a >>= fun at -> v_mul_m fops w at)
+  | "law_trsum" -> let a = rd_mat r in let b = rd_mat r in
+      put_res put_mat (m_plus fops a b >>= transpose fops);
+      put_res put_mat (transpose fops a >>= fun at -> transpose fops b >>= fun bt -> m_plus fops at bt);
+      put_res put_mat (m_minus fops a b >>= transpose fops);
+      put_res put_mat (transpose fops a >>= fun at -> transpose fops b >>= fun bt -> m_minus fops at bt)
   | "law_cross" -> let u = rd_vec r in let v = rd_vec r in
       (match vcross fops u v with
        | Ok w -> put_vec w; put_res put_f (vdot fops u w); put_res put_f (vdot fops v w)
@@ -217,13 +232,25 @@ let handler r =
     let nm = integer r in lms := List.init nm (fun _ -> plain_mat r);
     let nv = integer r in lvs := List.init nv (fun _ -> plain_vec r);
     let k = integer r in
+    (* the calls that change an object are collected and run, in the order they are made, by the extracted life_run
+       (the fold of life_step) before the next question is asked and at the end of the session *)
+    let pending = ref [] in
+    let flush () =
+      if !pending <> [] then begin
+        let (ms, vs) = ok_or_raise (life_run fops (!lms, !lvs) (List.rev !pending)) in
+        lms := ms; lvs := vs; pending := []
+      end in
     for _ = 1 to k do
       match word r with
-      | "m" -> let j = integer r in let mu = mmut_of r j in lms := ok_or_raise (life_m fops !lms (n j) mu)
-      | "v" -> let j = integer r in let mu = vmut_of r j in lvs := ok_or_raise (life_v fops !lvs (n j) mu)
-      | "o" -> let o = word r in dispatch o r; put_w "|"
+      (* an operand that cannot be constructed ends the session when its call is reached: the calls before it run first *)
+      | "m" -> let j = integer r in let mu = (try mmut_of r j with Ctor e -> flush (); raise (Ctor e)) in
+               pending := LM (n j, mu) :: !pending
+      | "v" -> let j = integer r in let mu = (try vmut_of r j with Ctor e -> flush (); raise (Ctor e)) in
+               pending := LV (n j, mu) :: !pending
+      | "o" -> flush (); let o = word r in dispatch o r; put_w "|"
       | o -> raise (Ctor ("MODELERR unknown_life_step_" ^ o))
-    done
+    done;
+    flush ()
   end
   with Ctor s -> Buffer.clear buf; first := true; put_w s
 
